@@ -53,6 +53,11 @@ func genC06(t *rapid.T) c06Case {
 		data = sm.Attach(gr).JSONLD(genLDOpts(t, 0))
 	}
 	c := c06Case{Profile: p.ToY().Print(m.YOpts{}), Data: data, Procs: rapid.IntRange(0, 3).Draw(t, "procs") == 0}
+	// a long enumeration (whatever the translator does with long lists must come out the same in every process)
+	if rapid.IntRange(0, 4).Draw(t, "longList") == 0 {
+		c.Profile = appendValidation(c.Profile, "vlong", bigListValidation(rapid.SampledFrom([]int{31, 32, 33, 64, 100, 300}).Draw(t, "longListLen"), "p0"))
+		c.Procs = true
+	}
 	// process history: the subject relies on a built-in prefix; earlier in the same process a profile with the
 	// same terms bound that name to its own namespace. Fresh processes are the reference.
 	if rapid.IntRange(0, 3).Draw(t, "history") == 0 {
